@@ -7,6 +7,7 @@ transition the whole data store is scanned (engine: vf/storemc.py, StoreRun.inte
 """
 from .. import storemc
 from ..storemc import KEYS
+from . import c09
 
 
 def configs(tier, seed):
@@ -43,6 +44,14 @@ def run(ctx):
     from ..core import pmap
 
     ctx.merge(pmap(size_case, SIZES, chunksize=1))
+    # two writers at the same time: of one key override (each memento must keep reading its own bytes), and of byte-
+    # identical results (one object); afterwards a fresh backend serves every call
+    cs = [("fs|cold|shared-override+readback", "fs", "cold", [[("ko", 1)], [("ko", 2)]]),
+          ("fs|cold|equal-results+readback", "fs", "cold", [[("same", 1)], [("same", 2)]])]
+    if ctx.tier == "thorough":
+        cs.append(("fs+cache-one|cold|shared-override+readback", "fs+cache-one", "cold", [[("ko", 1)], [("ko", 2)]]))
+    c09.concurrent_part(ctx, cs, "readback", "two threads writing results under one key override / byte-identical results at the same time, "
+                        "then every call read back through a fresh backend", bound=2 if ctx.tier == "thorough" else 1)
     ctx.extra["serialized_sizes_swept"] = SIZES
 
 
@@ -84,6 +93,8 @@ def size_case(n):
 
 
 def replay(ctx, art):
+    if "scn" in art["artefact"]:
+        return c09.replay_concurrent("C07", art)
     if "size" in art["artefact"]:
         r = size_case(art["artefact"]["size"])
         print(r["violations"])
